@@ -820,6 +820,9 @@ func checkC15(c *Check) {
 	// address validators the check calls on header content are total (C17.R9)
 	c.Rule("R13", "the address helpers authorize_sender applies to header content cannot panic: every index / slice operation in framework/address is in bounds (a panicking check goroutine is recovered and counts as passed) (C17.R9)", 0)
 	boundsRule(c, "R13", []string{"framework/address"})
+	c.Rule("R14", "the keys identities and entitlements are compared under are made with letter-to-letter lower-casing, never with full case folding: ß/ss and ς/σ spellings are different registrable domains and keep different keys (C17.R4)", 1)
+	importRules(c, "C17", func(s *Check) { s.Rule("R4", "key chains", 0); c17Chains(s) }, map[string]bool{"R4": true}, "R14")
+	c06RejectWins(c, "R15")
 	// which source block – and so which checks – a sender gets is decided on the normalised address, domain rule
 	// included: a spelling that misses `source example.org { check { authorize_sender } }` (trailing dot, case) falls
 	// through to default_source and is never asked for authorization
